@@ -15,78 +15,11 @@ using namespace tapkee;
 using namespace tapkee::tapkee_internal;
 using v8::show_matrix;
 using v8::show_vector;
+using v8::print_lle_oracles;
+using v8::print_eig_oracles;
+using v8::uniform;
 
 typedef std::vector<IndexType> Idx;
-
-// mirrored: the system linear_weight_matrix hands to ldlt(), and the raw solve result
-static DenseVector mirror_lle_solve(const DenseMatrix& K, IndexType i, const LocalNeighbors& nb, ScalarType tshift)
-{
-    const IndexType k = nb.size();
-    DenseMatrix gram = DenseMatrix::Zero(k, k);
-    DenseVector dots(k);
-    for (IndexType a = 0; a < k; ++a)
-        dots[a] = K(i, nb[a]);
-    for (IndexType a = 0; a < k; ++a)
-        for (IndexType b = a; b < k; ++b)
-            gram(a, b) = K(i, i) - dots(a) - dots(b) + K(nb[a], nb[b]);
-    ScalarType trace = gram.trace();
-    gram.diagonal().array() += tshift * trace;
-    DenseVector rhs = DenseVector::Ones(k);
-    DenseVector w = gram.selfadjointView<Eigen::Upper>().ldlt().solve(rhs);
-    return w;
-}
-
-// mirrored: eigen-decomposition of the centred local Gram matrix (all eigenvalues ascending, eigenvectors)
-static void mirror_local_eig(const DenseMatrix& K, const LocalNeighbors& nb, DenseVector& values, DenseMatrix& vectors)
-{
-    const IndexType k = nb.size();
-    DenseMatrix gram = DenseMatrix::Zero(k, k);
-    for (IndexType a = 0; a < k; ++a)
-        for (IndexType b = a; b < k; ++b)
-        {
-            gram(a, b) = K(nb[a], nb[b]);
-            gram(b, a) = gram(a, b);
-        }
-    centerMatrix(gram);
-    DenseSelfAdjointEigenSolver solver;
-    solver.compute(gram);
-    values = solver.eigenvalues();
-    vectors = solver.eigenvectors();
-}
-
-static void print_lle_oracles(std::ostream& out, const DenseMatrix& K, const Neighbors& nb, ScalarType tshift)
-{
-    out << " wraw=";
-    for (size_t i = 0; i < nb.size(); ++i)
-        out << (i ? "|" : "") << show_vector(mirror_lle_solve(K, (IndexType)i, nb[i], tshift));
-}
-
-static void print_eig_oracles(std::ostream& out, const DenseMatrix& K, const Neighbors& nb, IndexType d)
-{
-    std::ostringstream ev, U;
-    for (size_t i = 0; i < nb.size(); ++i)
-    {
-        DenseVector values;
-        DenseMatrix vectors;
-        mirror_local_eig(K, nb[i], values, vectors);
-        const IndexType k = nb[i].size();
-        ev << (i ? "|" : "") << show_vector(values);
-        if (d <= k)
-            U << (i ? "|" : "") << show_matrix(vectors.rightCols(d));
-        else
-            U << (i ? "|" : "") << "-";
-    }
-    const IndexType k = nb.empty() ? 0 : nb[0].size();
-    out << " rsk=" << vh::num(1 / sqrt(static_cast<ScalarType>(k))) << " ev=" << ev.str() << " U=" << U.str();
-}
-
-static bool uniform(const Neighbors& nb)
-{
-    for (auto& l : nb)
-        if (l.size() != nb[0].size())
-            return false;
-    return true;
-}
 
 int main()
 {
